@@ -24,8 +24,8 @@ import (
 // (wraph n k)                                     chain of n middleware, handler k is a wrapped plain http.Handler
 //     obs: (wraph e ...)
 
-var c20Users = []string{"tom", "ann", "", "ghost", "a:b", "é"}
-var c20Pwds = []string{"123", "", "p:w", "secret", " "}
+var c20Users = []string{"tom", "ann", "", "ghost", "a:b", "é", "Tom"}
+var c20Pwds = []string{"123", "", "p:w", "secret", " ", "Secret", "sEcReT", "0123456789abcdef0123456789abcdef-A", "0123456789abcdef0123456789abcdef-B", "x\x00"}
 
 func c20Decode(hdr string) Sx {
 	const prefix = "Basic "
@@ -123,8 +123,22 @@ func c20Exec(c Sx) Sx {
 		}
 		ran := false
 		r := rux.New()
-		r.GET("/x", func(c *rux.Context) { ran = true; c.SetStatus(200) }, handlers.HTTPBasicAuth(accounts))
-		req := httptest.NewRequest("GET", "/x", nil)
+		r.Any("/x", func(c *rux.Context) { ran = true; c.SetStatus(200) }, handlers.HTTPBasicAuth(accounts))
+		method := rtMethods[len(c.String())%len(rtMethods)]
+		// the gate decides every request on its own: the same middleware has just let the first account in, and turned
+		// an unknown one away
+		for k := 0; k < 2 && len(c.List[1].Lst()) > 0; k++ {
+			warm := httptest.NewRequest("GET", "/x", nil)
+			a0 := c.List[1].Lst()[0]
+			cred := a0.List[0].Str() + ":" + a0.List[1].Str()
+			if k == 1 {
+				cred = "nobody:nothing"
+			}
+			warm.Header.Set("Authorization", "Basic "+base64.StdEncoding.EncodeToString([]byte(cred)))
+			r.ServeHTTP(httptest.NewRecorder(), warm)
+		}
+		ran = false
+		req := httptest.NewRequest(method, "/x", nil)
 		if hdr != "" {
 			req.Header.Set("Authorization", hdr)
 		}
